@@ -59,6 +59,8 @@ def run_mc(name, workdir, level=None, timeout=3000, simulate=None, tier="quick")
     cfg = "MC_%s%s.cfg" % (name, "_" + variant if variant else "")
     if name == "coop" and tier != "thorough" and level != "full":
         cfg = "MC_coop2.cfg"
+    if name == "pag" and not variant and tier == "thorough":
+        cfg = "MC_pag_full.cfg"
     if level is not None and level != "full":
         p = os.path.join(wd, cfg)
         txt = open(p).read()
